@@ -168,7 +168,13 @@ func (g *GaussianSampler) read(pol Poly, f func(a, b, c uint64) uint64) {
 			}
 
 			for j, qi := range moduli {
-				coeffs[j][i] = f(coeffs[j][i], (coeffInt*sign)|(qi-coeffInt)*(sign^1), qi)
+				// The sample can exceed a small modulus when the standard deviation is large,
+				// and the negative of zero is zero: both residues are reduced.
+				c := coeffInt
+				if c >= qi {
+					c %= qi
+				}
+				coeffs[j][i] = f(coeffs[j][i], (c*sign)|CRed(qi-c, qi)*(sign^1), qi)
 			}
 		}
 	}
